@@ -467,3 +467,23 @@ pub fn all_dead_seeds() -> Vec<Seed> {
         .filter_map(|r| seed_all_dead_single_file(*r))
         .collect()
 }
+
+/// File 0 has already been collected: a's records lived only in file 0 and were truncated, b
+/// lives in file 1 (directory = [1] or [1, 2]).
+pub fn seed_collected() -> Seed {
+    let mut p = Planner::new();
+    p.push(Op::Create(QA))
+        .push(Op::Create(QB))
+        .push(Op::Create(QF))
+        .push(s3(QA))
+        .push(s3(QA));
+    p.fill_to(FILE);
+    // a control entry rolls into file 1 first, so that b's appends are attributed to file 1 (an
+    // append issued with the cursor exactly at the end of file 0 would pin file 0: D4)
+    p.push(Op::Trunc { q: QF, at: Tr::Last });
+    p.push(s3(QB)).push(s3(QB));
+    p.push(Op::Trunc { q: QA, at: Tr::Last });
+    let mut s = p.seed("collected:file0-gone,b@1");
+    s.predicted_cursor = None;
+    s
+}
